@@ -4,13 +4,13 @@ re-checks — the modules of the functions the property's behaviour is built fro
 import os
 OB = '/verif/lean/obligations'
 USES = {
- 'C01': ['Slice', 'SliceFns', 'Str', 'StrFns', 'Chr', 'Bytes', 'Bytes2', 'BytesTrim', 'Chars', 'SliceIter', 'Split', 'SplitTerm', 'Array', 'CStr', 'CStr2', 'SliceIter2', 'ProbesArr'],
+ 'C01': ['Slice', 'SliceFns', 'BytesPub', 'Str', 'StrFns', 'Chr', 'Bytes', 'Bytes2', 'BytesTrim', 'Chars', 'SliceIter', 'Split', 'SplitTerm', 'Array', 'CStr', 'CStr2', 'SliceIter2', 'ProbesArr'],
  'C11': ['Array', 'ProbesArr'],
  'C15': ['Array', 'ProbesArr'],
- 'C02': ['Slice', 'SliceFns', 'SliceIter'],
+ 'C02': ['Slice', 'SliceFns', 'SliceIter', 'BytesPub'],
  'C03': ['Slice', 'Str', 'StrFns'],
- 'C04': ['Slice', 'Bytes', 'Bytes2', 'StrFns', 'ParserB'],
- 'C05': ['Bytes', 'Bytes2', 'BytesTrim', 'StrFns'],
+ 'C04': ['Slice', 'Bytes', 'Bytes2', 'StrFns', 'ParserB', 'BytesPub'],
+ 'C05': ['Bytes', 'Bytes2', 'BytesTrim', 'StrFns', 'BytesPub'],
  'C06': ['Slice', 'Str', 'Bytes', 'Bytes2', 'StrFns', 'Split', 'SplitTerm', 'ProbesMisc'],
  'C07': ['Chr', 'Str', 'Slice', 'StrFns', 'Chars'],
  'C08': ['Slice', 'SliceFns', 'SliceIter', 'SliceIter2'],
